@@ -91,13 +91,34 @@ impl DiskCache {
     }
 }
 
+/// Read-only view of the tracked state for the verification harness.
+#[cfg(feature = "verif")]
+impl DiskCache {
+    /// Returns (num_items, total_bytes, tracked entries as (key, range, len, checksum)), taken under the state lock.
+    #[allow(clippy::type_complexity)]
+    pub fn verif_snapshot(&self) -> Result<(usize, u64, Vec<(Key, ChunkRange, u64, u32)>), ChunkCacheError> {
+        let state = self.state.lock()?;
+        let mut v = Vec::new();
+        for (key, items) in state.inner.iter() {
+            for item in items.iter() {
+                v.push((key.clone(), item.range, item.len, item.checksum));
+            }
+        }
+        Ok((state.num_items, state.total_bytes, v))
+    }
+}
+
 impl DiskCache {
     pub fn num_items(&self) -> Result<usize, ChunkCacheError> {
+        #[cfg(feature = "verif")]
+        verif_hooks::point("cache.state.lock");
         let state = self.state.lock()?;
         Ok(state.num_items)
     }
 
     pub fn total_bytes(&self) -> Result<u64, ChunkCacheError> {
+        #[cfg(feature = "verif")]
+        verif_hooks::point("cache.state.lock");
         let state = self.state.lock()?;
         Ok(state.total_bytes)
     }
@@ -285,6 +306,8 @@ impl DiskCache {
     }
 
     fn find_match(&self, key: &Key, range: &ChunkRange) -> OptionResult<VerificationCell<CacheItem>, ChunkCacheError> {
+        #[cfg(feature = "verif")]
+        verif_hooks::point("cache.state.lock");
         let state = self.state.lock()?;
         let Some(items) = state.inner.get(key) else {
             return Ok(None);
@@ -350,6 +373,8 @@ impl DiskCache {
 
         // evict items after ensuring the file write but before committing to cache state
         // to avoid removing new item.
+        #[cfg(feature = "verif")]
+        verif_hooks::point("cache.state.lock");
         let mut state = self.state.lock()?;
 
         let items = state.inner.entry(key.clone()).or_default();
@@ -517,6 +542,20 @@ impl DiskCache {
         if num_items == 0 {
             return None;
         }
+        #[cfg(feature = "verif")]
+        if verif_hooks::controlled() {
+            // same contract as below (index drawn from 0..num_items), but the draw is an
+            // environment choice of the harness and the walk order is canonical.
+            let mut all: Vec<(String, u32, u32, Key, usize)> = Vec::new();
+            for (key, items) in state.inner.iter() {
+                for (idx, item) in items.iter().enumerate() {
+                    all.push((key.to_string(), item.range.start, item.range.end, key.clone(), idx));
+                }
+            }
+            all.sort_by(|a, b| (&a.0, a.1, a.2, a.4).cmp(&(&b.0, b.1, b.2, b.4)));
+            let c = verif_hooks::choose("cache.evict", num_items);
+            return all.get(c).map(|e| (e.3.clone(), e.4));
+        }
         let random_item = rand::random::<usize>() % num_items;
         let mut count = 0;
         for (key, items) in state.inner.iter() {
@@ -531,6 +570,8 @@ impl DiskCache {
     /// removes an item from both the in-memory state of the cache and the file system
     fn remove_item(&self, key: &Key, cache_item: &VerificationCell<CacheItem>) -> Result<(), ChunkCacheError> {
         {
+            #[cfg(feature = "verif")]
+            verif_hooks::point("cache.state.lock");
             let mut state = self.state.lock()?;
             if let Some(items) = state.inner.get_mut(key) {
                 let idx = match index_of(items, cache_item) {
